@@ -208,6 +208,106 @@ void h_script_vnacal(void)
 #endif
 
 
+#ifdef S_PROPERTY
+/*
+ * script: property tree under allocation faults (public API only).  A failed
+ * set returns -1 with ENOMEM, leaves a tree that can still be read, set and
+ * freed, and the repeated call succeeds; the final tree equals that of the
+ * fault-free history and everything is freed.
+ */
+#include <vnaproperty.h>
+#include <stdarg.h>
+/* ASSUMED CONTRACT: vasprintf returns a fresh copy of a format without conversions (harness allocation: not counted) */
+int vasprintf(char **strp, const char *fmt, va_list ap)
+{
+    size_t n = 0;
+
+    (void)ap;
+    for (int i = 0; i < 32; ++i) {
+	if (fmt[i] == 0)
+	    break;
+	CHECK(fmt[i] != '%', "infra: property script uses formats without conversions");
+	++n;
+    }
+    *strp = malloc(n + 1);
+    ASSUME(*strp != NULL);
+    for (size_t i = 0; i <= n; ++i)
+	(*strp)[i] = fmt[i];
+    return (int)n;
+}
+
+static _Bool p_str_eq(const char *a, const char *b)
+{
+    for (int i = 0; i < 16; ++i) {
+	if (a[i] != b[i])
+	    return 0;
+	if (a[i] == 0)
+	    return 1;
+    }
+    return 0;
+}
+
+#define P_STEP(what, call) \
+    do { \
+	errno = 0; \
+	rc = (call); \
+	if (rc == -1) { \
+	    CHECK(verif_alloc_failed && errno == ENOMEM, what ": fails only under the fault, with ENOMEM"); \
+	    (void)vnaproperty_type(root, "."); \
+	    (void)vnaproperty_get(root, "foo"); \
+	    (void)vnaproperty_count(root, "."); \
+	    rc = (call); \
+	    CHECK(rc == 0, what ": repeating the call without the fault succeeds"); \
+	} \
+    } while (0)
+
+/* a read may fail under the fault as well (the descriptor is parsed into allocated nodes): ENOMEM, then the repeat succeeds */
+#define P_GET(what, var, call, cond) \
+    do { \
+	errno = 0; \
+	var = (call); \
+	if (!(cond) && verif_alloc_failed && !fault_seen) { \
+	    fault_seen = 1; \
+	    CHECK(errno == ENOMEM, what ": a read disturbed by the fault fails with ENOMEM"); \
+	    var = (call); \
+	} \
+	CHECK(cond, what); \
+    } while (0)
+
+void h_script_property(void)
+{
+    vnaproperty_t *root = NULL;
+    const char *v;
+    _Bool fault_seen = 0;
+    int rc, n, t;
+
+    P_STEP("set foo", vnaproperty_set(&root, "foo=bar"));
+    fault_seen = verif_alloc_failed;
+    P_STEP("set other", vnaproperty_set(&root, "other=1"));
+    fault_seen = verif_alloc_failed;
+    P_GET("the first value reads back", v, vnaproperty_get(root, "foo"), v != NULL && p_str_eq(v, "bar"));
+    fault_seen = verif_alloc_failed;
+    P_STEP("replace scalar by map", vnaproperty_set(&root, "foo.x=1"));
+    fault_seen = verif_alloc_failed;
+    P_GET("final tree: the nested value reads back", v, vnaproperty_get(root, "foo.x"), v != NULL && p_str_eq(v, "1"));
+    P_GET("final tree: the sibling is intact", v, vnaproperty_get(root, "other"), v != NULL && p_str_eq(v, "1"));
+    P_GET("final tree: two keys", n, vnaproperty_count(root, "."), n == 2);
+    P_GET("final tree: foo is a map", t, vnaproperty_type(root, "foo"), t == 'm');
+    REACH("script finished");
+#if VERIF_FAIL_AT > 0
+    CHECK(verif_alloc_failed, "infra: the injected fault was never reached (vacuous run)");
+#endif
+#if VERIF_FAIL_AT == 0 && !defined(VERIF_NATIVE)
+    CHECK(verif_alloc_count == EXPECT_K, "infra: allocation count differs from the natively measured K");
+#endif
+#ifdef VERIF_NATIVE
+    printf("VERIF_ALLOC_COUNT=%d\n", verif_alloc_count);
+#endif
+    (void)vnaproperty_delete(&root, ".");
+    CHECK(root == NULL, "the tree can be freed");
+}
+#endif
+
 #ifdef S_REFUSALS
 /*
  * C11 / C03: every documented refusal of vnacal_make_correlated_parameter
